@@ -30,6 +30,7 @@ def freshPath : Path :=
    (.beginD, false), (.write, false), (.write, false), (.commit, false),
    (.beginD, false), (.write, false), (.write, false), (.commit, false),
    (.beginD, false), (.read, false), (.commit, false),
+   (.work, false), (.work, false),
    (.beginD, false), (.write, false), (.commit, false)]
 
 theorem freshPath_mem : freshPath ∈ paths sqlProgram := by decide +kernel
@@ -75,11 +76,33 @@ example : ∃ i s g r, ((fun _ => freshPath) i : Path).drop
     ((runN 2 (fun _ => freshPath) init [0, 0, 1, 1, 1] i).pc) = (s, g) :: r :=
   ⟨1, .beginI, false, freshPath.drop 2, by decide⟩
 
+/-- **Lock hold times do not depend on the text**: if on every path the text-dependent work (`_parse`, pickling)
+    lies outside every transaction, then in every reachable state a connection that is about to do such work is
+    outside every transaction and holds no lock — whatever the other connections do.  (This is what makes the
+    fairness assumption of `no_deadlock_partial` reasonable: a lock is held for a few SQL statements only.) -/
+theorem work_outside_locks (prog : Prog) (h1 : noUpgrade prog = true) (h2 : noWorkInsideTxn prog = true)
+    (pr : Nat → Path) (hpr : RunsProg prog pr) (sched : List Nat) (st : State) (hrun : Run pr init sched st)
+    (i : Nat) (g : Bool) (r : Path) (hcur : (pr i).drop (st i).pc = (.work, g) :: r) :
+    (st i).inTxn = false ∧ (st i).lock = .none :=
+  work_holds_nothing (run_allOk hrun (init_allOk pr fun j => pathOk_of_noUpgrade h1 (hpr j)) i)
+    (run_allWork hrun (init_allWork pr fun j => pathWorkOk_of_noWork h2 (hpr j)) i) hcur
+
+example : ((fun _ => freshPath) 0 : Path).drop
+    ((runN 2 (fun _ => freshPath) init ((List.replicate 26 0) ++ [1, 1]) 0).pc) = (.work, false) :: freshPath.drop 23 := by
+  decide +kernel
+
+/-- the hypothesis is needed: a write transaction opened before the parse (`BEGIN IMMEDIATE; _parse; INSERT; COMMIT`) -/
+example : pathWorkOk [(.beginI, false), (.work, false), (.write, false), (.commit, false)] = false := by decide
+
 /-! ### Obligations over the program extracted from the current sources -/
 
 /-- The statement tree of `parse` has no read-then-write inside a deferred transaction, no nested
     `BEGIN`, and closes every transaction, on every path. -/
 theorem sqlProgram_noUpgrade : noUpgrade sqlProgram = true := by decide +kernel
+
+/-- In the statement tree of `parse` the calls of `_parse`, `pickle.dumps` and `pickle.loads` lie outside every
+    transaction on every path: no lock is held while a text is parsed or a tree pickled. -/
+theorem sqlProgram_noWorkInsideTxn : noWorkInsideTxn sqlProgram = true := by decide +kernel
 
 /-- Every connection is opened with `isolation_level=None` (the model's statement kinds assume that
     Python's sqlite3 module opens no implicit transactions). -/
